@@ -17,6 +17,7 @@ func C02(p *core.Prog, rep *core.Report) {
 	mmapCloseTruncates(p, rep)
 	codecAgreement(p, rep)
 	newMergeCtx(p, rep).mg1Guard()
+	rp1SkipBelow(p, rep)
 	rep.NotCovered = append(rep.NotCovered, "equality of the two dumps over all histories and configuration pairs; ordering of files by name; adoption of merges (C06)")
 }
 
